@@ -37,15 +37,17 @@ ExecFinger(r) ==
             \cup (IF r.err = "" /\ FromJ(r.out) # SMapN(p, RootSrc, RootTgt, FromJ(r["in"])) THEN {<<"C06", "custom-function-result-not-at-every-position", "", r.id>>} ELSE {})
        ELSE (IF r.err = "" THEN {<<"C07", "error-dropped", "", r.id>>}
              ELSE IF r.err \notin reached THEN {<<"C07", "wrong-error", "", r.id>>} ELSE {})
-            \cup (IF r.err # "" /\ p.wrap = "using" /\ r.path # FaultPath(p, RootSrc, RootTgt, FromJ(r["in"]), faults, <<>>)
+            \cup (IF r.err # "" /\ p.wrap # "none" /\ r.path # Reported(p, FaultPath(p, RootSrc, RootTgt, FromJ(r["in"]), faults, <<>>, FALSE))
                   THEN {<<"C07", "wrong-location-path", "", r.id>>} ELSE {})
 Rng(q) == {q[i] : i \in DOMAIN q}
 \* a wrap is emitted wherever a method calls something that can fail (the fallible extend function or a method returning error)
 EmitsWrap(p) == LET st == Gen(p).st IN
                 \E m \in DOMAIN st.ms : st.ms[m].body.k # "none" /\ (HasFallibleExt(st.ms[m].body) \/ \E c \in Calls(st.ms[m].body) : st.ms[c.callee].retErr)
+\* in this family every fallible call sits below a field or an index of its method, so wrapErrors emits fmt.Errorf wherever a wrap is due
+EmitsWrapPlain(p) == EmitsWrap(p)
 Finger18(r) ==
   IF r.gen # "ok" THEN {}
-  ELSE (IF Rng(r.imports) # {"user"} \cup (IF r.wrap = "using" /\ EmitsWrap(ProgOf(r)) THEN {"wrap-pkg"} ELSE {})      \* the wrapErrorsUsing package when a wrap is emitted
+  ELSE (IF Rng(r.imports) # {"user"} \cup (IF r.wrap = "using" /\ EmitsWrap(ProgOf(r)) THEN {"wrap-pkg"} ELSE {}) \cup (IF r.wrap = "plain" /\ EmitsWrapPlain(ProgOf(r)) THEN {"fmt"} ELSE {})      \* the wrapErrorsUsing package when a wrap is emitted
         THEN {<<"C18", "imports-differ-from-owners-of-used-types", "calls", r.id>>} ELSE {})
        \cup (IF \E i \in DOMAIN r.decls : r.decls[i] \notin {"struct", "method"} THEN {<<"C18", "extra-top-level-declaration", "calls", r.id>>} ELSE {})
 Finger(r) == IF r.exec THEN ExecFinger(r) ELSE GenFinger(r) \cup Finger18(r)
